@@ -216,7 +216,7 @@ PROFILE = {'weights': {'transfer': 3, 'container': 3, 'plate': 0, 'remove': 1, '
 def run(col):
     pp = core.env.bootstrap()
     core.run_property(col, lambda: benchmachine.make_machine(col, pp, dict(PROFILE), Target(col)),
-                      budget(60, 1000, col.tier), tag='bench', stateful_step_count=budget(25, 40, col.tier))
+                      budget(60, 1000, col.tier), tag='bench', stateful_step_count=25 if col.tier == 'quick' else 40)
 
 
 def replay(col, case):
